@@ -3,3 +3,7 @@ Require Import Base.
 
 Definition mismatches {C} (chk : C -> bool) (cases : list (nat * C)) : list nat :=
   map fst (filter (fun p => negb (chk (snd p))) cases).
+
+(* checks that report which comparisons failed: (case index, codes) for every case with a non-empty code list *)
+Definition failures {C} (chk : C -> list N) (cases : list (nat * C)) : list (nat * list N) :=
+  filter (fun p => match snd p with [] => false | _ => true end) (map (fun p => (fst p, chk (snd p))) cases).
